@@ -101,9 +101,9 @@ def judge_all(prop, cfg, lines, impl, model, incidents):
         fs = spec["judge"](ctx, i, op, a, mi, ms, reason)
         if op[0] in spec["probes"]:
             evaluations += 1
-            nt = nontrivial or (op[0] in ("dec", "decq") and len(op) > 1 and len(op[1]) >= 56) or op[0] in ("fx", "sweep", "sdec", "senc", "serve")
+            nt = nontrivial or (op[0] in ("dec", "decq") and len(op) > 1 and len(op[1]) >= 56) or op[0] in ("fx", "sweep", "sdec", "senc", "serve", "cli")
             if nt:
-                distinct.add(h.digest() if op[0] not in ("dec", "decq", "fx", "sweep", "sdec", "senc", "serve") else core.sha(l))
+                distinct.add(h.digest() if op[0] not in ("dec", "decq", "fx", "sweep", "sdec", "senc", "serve", "cli") else core.sha(l))
             if len(samples) < 6 and (evaluations % 997 == 1):
                 samples.append({"line": l[:300], "implementation": a[:300], "model": (model[i] or "")[:400]})
         for f in fs:
@@ -118,7 +118,7 @@ def run_once(prop, tier, seed, wd, cfg, extra_head=None, nproc=1):
     cases = os.path.join(wd, "cases.txt")
     extra = spec["extra"](wd) if "extra" in spec else []
     core.gen_cases(spec["family"], seed, tier, extra, cases, [cfg["line"]])
-    lines, impl, model, incidents = core.run_pair(cases, wd, nproc)
+    lines, impl, model, incidents = core.run_pair(cases, wd, nproc, spec.get("model_input"))
     return (lines, impl, model, incidents) + judge_all(prop, cfg, lines, impl, model, incidents)
 
 
@@ -129,7 +129,7 @@ def shrink(prop, cfg, wd, pre, case, kind):
         with open(p, "w") as f:
             f.write("\n".join([cfg["line"]] + pre + c) + "\n")
         try:
-            lines, impl, model, inc = core.run_pair(p, wd, 1)
+            lines, impl, model, inc = core.run_pair(p, wd, 1, PROPS[prop].get("model_input"))
         except Exception:
             return False
         _, fs, _, _, _ = judge_all(prop, cfg, lines, impl, model, inc)
@@ -312,7 +312,7 @@ def replay(prop, path):
     case = doc.get("shrunk_case") or doc["case"]
     with open(p, "w") as f:
         f.write("\n".join([cfg["line"]] + doc["preamble"] + case) + "\n")
-    lines, impl, model, inc = core.run_pair(p, wd, 1)
+    lines, impl, model, inc = core.run_pair(p, wd, 1, PROPS[prop].get("model_input"))
     ctx, fs, _, _, _ = judge_all(prop, cfg, lines, impl, model, inc)
     for l, a, b in zip(lines, impl, model):
         if l.startswith("#") or l.split(" ")[0] in ("cfg", "dadd", "dreset", "avp", "app", "cmd", "doc_begin", "doc_end"):
